@@ -264,6 +264,12 @@ class Body:
         if "closure" in c:
             return ("fn", c["closure"], (), c["closure"])
         v = c.get("signed", c.get("scalar"))
+        if v is None and c.get("deref_bytes") and c.get("deref_field_offsets") and c["ty"].startswith("&"):
+            # a promoted `&Struct` constant (`&Layout::new::<T>()`): the pointee's bytes
+            return ("const", c["ty"][1:].strip(), v, c.get("named"), c["deref_bytes"], tuple(c["deref_field_offsets"]))
+        if v is None and c.get("bytes") and not c.get("has_ptrs"):
+            # a small by-value constant of a struct type (core::alloc::Layout ...): keep its bytes
+            return ("const", c["ty"], v, c.get("named"), c["bytes"], tuple(c.get("field_offsets", ())))
         return ("const", c["ty"], v, c.get("named"))
 
     def origin_place(self, p, stack=()):
